@@ -37,6 +37,21 @@ NEEDS = {
  "C16": "remove_unloaded(inputs=True) on a primary input that is also an output and whose only loads are dead logic",
  "C17": "two outputs sharing logic such that one output's supergate swallows a node that heads its own supergate in the other cone; shows for about half of the set orders of Circuit objects",
  "C18": "one strongly connected component with overlapping loops (>= 7 gates) whose heuristic ordering needs two backward edges on one loop",
+ "C01b": "an xnor gate with exactly one fan-in",
+ "C04b": "two distinct circuits, default startpoints, and a name that is a primary input of c0 but a multi-input gate of c1 (a cone cut at an internal net)",
+ "C05b": "limit_fanin with k >= 3, an operand of the gate's base type that is itself observable (an output) and is popped first (hash-order dependent when only one operand qualifies)",
+ "C06b": "the same connections dict object passed to two add_subcircuit calls",
+ "C07b": "one add() call with both fanin and fanout where every fan-in connection is legal and the fan-out connection is rejected",
+ "C08b": "approx_model_count in default mode with an assumption on an xor/xnor node",
+ "C09b": "the same per-flop initial_values dict object passed to a second sequential_unroll call",
+ "C10b": "a nand with a constant-1 fan-in (or nor with constant 0) and another fan-in that is X",
+ "C11b": "props.sensitivity on a node whose cone has a power-of-two number of startpoints, with some valuation of sensitivity 0 and true maximum below the number of startpoints",
+ "C15b": "circuit_to_bench on a circuit with a primary input that is also a primary output",
+ "C16b": "remove_unloaded(inputs=False) with a constant whose only loads are dead logic; the second call then deletes it",
+ "C17b": "a constant node in the cone of an output",
+ "C18b": "at least two cut feedback nodes and a PYTHONHASHSEED under which two unrelated sets enumerate in different relative order",
+ "C19b": "sequential_unroll with ignore_pins naming a real pin of the flop BlackBox (also when the call then raises)",
+ "C03b": "",
  "C19": "tx.subcircuit asked for ALL nodes of a blackbox-free circuit (directly or through sensitization_transform / influence with an endpoint whose cone is the whole circuit), then any edit or the internal set_output",
  "C01": "two parity gates with >= 3 inputs sharing two operands that a hash order pairs in opposite order in the same chain stage (2 of 300 PYTHONHASHSEED values for a fixed circuit)",
 }
@@ -63,6 +78,10 @@ def main():
         if not os.path.isfile(os.path.join(d, "patch.diff")) or (only and sid not in only):
             continue
         prop = sid[:3]
+        if sid.endswith("b"):
+            src2 = " (round 2: told which round-1 change not to repeat)"
+        else:
+            src2 = ""
         scratch = tempfile.mkdtemp(prefix="cgseed_")
         try:
             repo = os.path.join(scratch, "repo")
@@ -73,7 +92,7 @@ def main():
                 r2 = subprocess.run(["patch", "-p1", "-d", "repo", "-i", os.path.join(d, "patch.diff")], cwd=scratch, capture_output=True, text=True)
                 applies = r2.returncode == 0
             meta = {"id": sid, "breaks_property": prop, "needs_to_manifest": NEEDS.get(sid, ""),
-                    "source": "written by a fresh sub-agent that saw only the property text and its own scratch worktree",
+                    "source": "written by a fresh sub-agent that saw only the property text and its own scratch worktree" + src2,
                     "patch_applies_to_repo_head": applies}
             if not applies:
                 meta["note"] = "patch no longer applies to /repo HEAD: " + (r.stderr or "")[-300:]
